@@ -2,6 +2,7 @@
 CONSTANTS
   Configured = FALSE
   DEV_DetachedPartyOutlivesSession = FALSE
+  FIX_DetachedAcceptRefused = FALSE
   Kinds = {"Sub", "Leave", "SetSelf", "Pub", "Invite", "Note", "Disconnect"}
   MaxSeq = 2
   MaxDepth = 0
